@@ -78,11 +78,12 @@ def run(chk):
     chk.attempt("E11", lambda: spline_guards(chk, P))
     chk.rule("C16.E13", "names in [Potential-Form] that the expression library refuses (a parameter or form named like another form, "
                         "an exprtk constant or built-in) give configuration errors; clash-free definitions are accepted", 5)
-    chk.rule("C16.E14", "no assert statement guards user input on the configuration path (AssertionError is an internal exception)", 1)
+    chk.rule("C16.E14", "a custom form called from a formula with the wrong number of arguments is a configuration error "
+                        "(exprtk calls the registered function with as many arguments as the formula wrote)", 3)
     chk.rule("C16.E15", "no except handler on the configuration path swallows the error (body empty apart from pass / logging)", 25)
     chk.attempt("E15", lambda: no_swallowing(chk, P))
     chk.attempt("E13", lambda: name_clashes(chk, P))
-    chk.attempt("E14", lambda: no_asserts(chk, P))
+    chk.attempt("E14", lambda: nested_call_arity(chk, P))
     chk.attempt("E12", lambda: unknown_names(chk, P))
     chk.attempt("E12t", lambda: table_form_arity(chk, P))
     chk.assume("Python can raise from almost anything; this is conformance of the enumerated input partitions and rules, "
@@ -777,27 +778,22 @@ def name_clashes(chk, P):
                key="C16.E13|%s" % what)
 
 
-def no_asserts(chk, P):
-    mods = [m for m in P.modules.values() if m.name.startswith("atsim.potentials.config") or m.name == MODS
-            or m.name.startswith("atsim.potentials.tools.potable")]
-    nfun = 0
-    bad = []
-    for fi in P.all_functions():
-        if fi.module not in mods:
-            continue
-        nfun += 1
-        for node in ast.walk(fi.node):
-            if isinstance(node, ast.Assert) and _owner(fi.node, node) is fi.node:
-                t = node.test
-                if isinstance(t, ast.Constant) and t.value:
-                    continue
-                bad.append((fi, node))
-    for fi, node in bad:
-        chk.ob("C16.E14", "%s: assert %s" % (fi.qualname, ast.unparse(node.test)[:60]), False, site=fi.site(node),
-               found="assert on the configuration path", expect="a ConfigurationException for the condition the user can cause",
-               key="C16.E14|%s|%s" % (fi.fq, ast.unparse(node.test)[:40]))
-    chk.ob("C16.E14", "%d functions on the configuration path contain no assert statement" % nfun, not bad, site="atsim/potentials/config",
-           found=len(bad) or None, expect=0, key="C16.E14|summary")
+def nested_call_arity(chk, P):
+    """g(r, a) registered with the expression library; the library calls it back with the arguments the calling formula
+    wrote.  Too few / too many -> configuration error; the right number -> evaluated."""
+    ci = P.cls("atsim.potentials.config._cexprtk_potential_function", "_Cexptrk_Potential_Function")
+    site = ci.lookup("__call__").site()
+    for nargs, want in ((2, "accepted"), (1, "config-error"), (3, "config-error")):
+        I = F.make_interp(P)
+        M.install_cexprtk(I)
+        mod = P.module(COMMON)
+        pft = I.module_global(mod, "PotentialFormTuple")
+        sig = I.module_global(mod, "PotentialFormSignatureTuple")
+        tup = I.call(pft, [I.call(sig, [Const("g"), ListV([Const("r"), Const("a")], "list"), FALSE], {}), Const("a*r")], {})
+        o = outcome(lambda: I.call(I.instantiate(ci, [tup], {}, None), [Num(ep.const(i + 1)) for i in range(nargs)], {}))
+        got = classify(P, o)
+        chk.ob("C16.E14", "g(r, a) called back with %d argument(s) -> %s" % (nargs, want), got == want, site=site,
+               found=got if got != "other-exception" else o, expect=want, key="C16.E14|callback|%d" % nargs)
 
 
 def no_swallowing(chk, P):
@@ -823,6 +819,11 @@ def no_swallowing(chk, P):
                     continue
                 eff.append(st)
             what = ast.unparse(node.type) if node.type is not None else "everything"
+            # errors that are about the interpreter's environment rather than the user's file are not the property's business
+            if node.type is not None and all(ast.unparse(t).split(".")[-1] in ("ImportError", "ModuleNotFoundError", "AttributeError",
+                                                                              "StopIteration", "NameError")
+                                             for t in (node.type.elts if isinstance(node.type, ast.Tuple) else [node.type])):
+                continue
             chk.ob("C16.E15", "%s: the handler for %s does something with the error" % (fi.qualname, what), bool(eff), site=fi.site(node),
                    found="handler body is only pass / logging" if not eff else None, expect="raise / return / fallback value",
                    key="C16.E15|%s|%s" % (fi.fq, what))
